@@ -669,7 +669,15 @@ func slotFunctionIndexIdiom(w *core.World, r *core.Report, f *ssa.Function, key 
 			return
 		}
 		sl, ok := arg.(*ssa.Slice)
-		if !ok || sl.X != key || sl.Low == nil || !isS1(sl.Low) || sl.High == nil || !isHigh(sl.High) {
+		good := ok && sl.X == key && sl.Low != nil && isS1(sl.Low) && sl.High != nil && isHigh(sl.High)
+		if ok && !good {
+			// the same substring cut in two steps: rest := key[s+1:], tag := rest[:e]
+			if inner, isSl := sl.X.(*ssa.Slice); isSl && inner.X == key && inner.Low != nil && isS1(inner.Low) && inner.High == nil &&
+				(sl.Low == nil || isConstInt(0)(sl.Low)) && sl.High == eCall {
+				good = true
+			}
+		}
+		if !good {
 			bad, badPos = "the hashed substring is not key[s+1 : s+1+e]", ret.Pos()
 			return
 		}
